@@ -179,7 +179,9 @@ def run(tier):
         f1 = ex.submit(surface, ck, tier, binary)
         feats = c19_planners.planner_traces(ck, tier, cbin)
         f1.result()
+    log("[c19] surface + planner traces done at %.0fs" % (__import__("time").time() - ck.t0))
     mt_planners(ck, tier, pbin)
+    log("[c19] sampled multi-threaded planner contract done at %.0fs" % (__import__("time").time() - ck.t0))
     models.judge(ck, feats)
     return ck.finish()
 
